@@ -302,6 +302,12 @@ class GValid:
         lead = self._lead()
         md = getattr(cx, "marker_depth", 0)
         body = self._concat(cx, depth - 1, lead=lead)
+        if rng.random() < 0.35:
+            # a body that ends in something nullable: the loop-back edge of the follow sets decides whether
+            # the next iteration's first token is accepted after a short iteration
+            tail = opt(self._lead()) if rng.random() < 0.6 else star(self._lead())
+            body = concat(*(body.ops if body.k == "concat" else [body]), tail)
+            cx.features.add("loop_body_nullable_tail")
         pr = rng.random()
         if pr < cfg["p_true_pred"] * 0.5:
             body = concat(pred("t"), *(body.ops if body.k == "concat" else [body]))
